@@ -30,6 +30,10 @@ def build_inputs(c, t, rng):
             seen_routes.add(r.route)
             for kind, el, raw in reqgen.header_value_truncations(r):
                 inputs.append(({"route": r.route, "el": el, "kind": kind}, raw))
+    # every file and directory of the tree once (their metadata differs: sizes, modification times from 1969 to 9999, link kinds)
+    for f in (sorted(t.files) + sorted(t.dirs))[:120]:
+        if " " not in f and "?" not in f and "#" not in f:
+            inputs.append(({"route": "static-each-file", "el": "none", "kind": "valid"}, ("GET %s HTTP/1.1\r\nHost: localhost\r\n\r\n" % f).encode("utf-8")))
     for kind, el, raw in reqgen.dictionary_requests(valid):
         inputs.append(({"route": "dictionary", "el": kind, "kind": kind, "always_b": kind.endswith("all-at-once")}, raw))
     for kind, el, raw in reqgen.bombs(valid):
